@@ -126,6 +126,15 @@ func (c *Ctx) match(p, g *Term, vars map[*Term]bool, m map[*Term]*Term) bool {
 		m[p.args[0]] = want
 		return true
 	}
+	// ... and offset + k (a slice element pattern: the ground index may have been normalised to any shape)
+	if (p.op == "+" || p.op == "bvadd") && len(p.args) == 2 && vars[p.args[1]] && !p.args[0].bound && p.sort == g.sort {
+		want := c.Sub(g, p.args[0])
+		if old, ok := m[p.args[1]]; ok {
+			return old == want
+		}
+		m[p.args[1]] = want
+		return true
+	}
 	if p.op != g.op || len(p.args) != len(g.args) || p.sort != g.sort {
 		return false
 	}
@@ -382,4 +391,53 @@ func (c *Ctx) groundInstances(hyps []*Term, goal *Term, rounds int) (qf []*Term,
 		}
 	}
 	return qf, dropped + len(quants)
+}
+
+// replace rebuilds t with the given (closed) subterms replaced, through the simplifying constructors:
+// used to specialise a query to one case of a join (the reach condition of one incoming path true,
+// the ones tried before it false), which collapses the ite-merged terms of that join.
+func (c *Ctx) replace(t *Term, m map[*Term]*Term, memo map[*Term]*Term) *Term {
+	if r, ok := m[t]; ok {
+		return r
+	}
+	if t.leaf || len(t.args) == 0 {
+		return t
+	}
+	if r, ok := memo[t]; ok {
+		return r
+	}
+	var r *Term
+	if t.op == "forall" {
+		n := qnvars[t]
+		body := c.replace(t.args[n], m, memo)
+		var pats [][]*Term
+		for _, p := range qpats[t] {
+			var np []*Term
+			for _, x := range p {
+				np = append(np, c.replace(x, m, memo))
+			}
+			pats = append(pats, np)
+		}
+		if body == t.args[n] {
+			r = t
+		} else {
+			r = c.Forall(t.args[:n], body, pats)
+		}
+	} else {
+		changed := false
+		args := make([]*Term, len(t.args))
+		for i, a := range t.args {
+			args[i] = c.replace(a, m, memo)
+			if args[i] != a {
+				changed = true
+			}
+		}
+		if !changed {
+			r = t
+		} else {
+			r = c.rebuild(t, args)
+		}
+	}
+	memo[t] = r
+	return r
 }
